@@ -38,6 +38,8 @@ CHECKS = {
             "The specification is checked for every interleaving of the four linearization points; the implementation is driven through every schedule of small programs by a baton scheduler on the hooked atomics/locks, through random schedules of larger programs, and free-running; acceptance of each execution by the trace specification (TLC infers the unlogged internal steps) is the oracle."),
     "C17": ("exploration", "3.7, 6/C17", "Shapes.tla Store/Output vs statement (TwoDefinitionsAgree) by TLC; TLC-enumerated (type, path, value) cases rendered to #[unimock] traits, built and run against /repo",
             "Model-derived exhaustive case generation inside a stated grammar of return types (Option/Result/Vec/Poll/tuples x owned, non-Clone, &T, &str, &'static): every variant and element count up to the bound, single-use and repeat-use paths, three calls each, address stability of borrowed leaves."),
+    "C14": ("exploration", "3.2, 6/C14", "MC_Assemble.tla (Leaves/FlatOK/PermInvariant/TypeChecks) by TLC; clause trees and inconsistent clause lists rendered as static tuples and run; builder chains type-checked by rustc against the type-state automaton",
+            "Every flat arity 2..16, nested tuples and unit clauses to depth 2, mode conflicts (either order, any distance) and empty stubs at every position with the error Assemble predicts and raised inside Unimock::new; the must-not-compile chains (at_least on ordered, then after inexact, multi-use of non-Clone) located per function in one cargo check run."),
 }
 
 NOT_YET = {
